@@ -284,6 +284,21 @@ func isAncestorFn(anc, fn *ssa.Function) bool {
 }
 
 func (fr *Frame) argBindings(cc *ssa.CallCommon, args []Term) map[string]TV {
+	out := fr.argBindings0(cc, args)
+	if f, ok := cc.Value.(*ssa.Function); ok {
+		// parameters that were only renamed since the baseline stay reachable under the old name
+		for o, n := range fr.c.P.renamesFor(f) {
+			if tv, has := out[n]; has {
+				if _, taken := out[o]; !taken {
+					out[o] = tv
+				}
+			}
+		}
+	}
+	return out
+}
+
+func (fr *Frame) argBindings0(cc *ssa.CallCommon, args []Term) map[string]TV {
 	out := map[string]TV{}
 	sig := cc.Signature()
 	i := 0
@@ -699,6 +714,14 @@ func (fr *Frame) applyContract(fcx *FuncContract, f *ssa.Function, sig *types.Si
 		}
 		if f.Signature.Recv() != nil && len(args) > 0 {
 			e.bind["self"] = TV{T: args[0], Ty: f.Params[0].Type()}
+		}
+		// parameters that were only renamed since the baseline stay reachable under the old name
+		for o, n := range c.P.renamesFor(f) {
+			if tv, has := e.bind[n]; has {
+				if _, taken := e.bind[o]; !taken {
+					bindParam(o, tv)
+				}
+			}
 		}
 	} else {
 		i := 0
